@@ -229,9 +229,61 @@ def residual_stream(ctx):
         ctx.count('residual-' + str(pdt).split('.')[-1])
 
 
+def zero_head_stream(ctx):
+    """a registered layer whose gradient is exactly zero (an auxiliary head with loss weight 0) next to ordinary ones, with
+    active clipping: every layer's gradient is nu*V with the one global nu (V from a twin run without clipping)"""
+    import copy
+    from kfac.preconditioner import KFACPreconditioner
+
+    class TwoHead(torch.nn.Module):
+        def __init__(self):
+            super().__init__()
+            self.body = torch.nn.Linear(3, 3)
+            self.head = torch.nn.Linear(3, 2)
+            self.aux = torch.nn.Linear(3, 2)
+
+        def forward(self, x):
+            h = torch.tanh(self.body(x))
+            return self.head(h), self.aux(h)
+    rng = ctx.rng
+    for _ in range(ctx.budget(6, 40)):
+        method = rng.choice(['eigen', 'inverse'])
+        kl, lr = 10.0 ** -rng.randrange(3, 6), 0.1
+        auxw = rng.choice([0.0, 0.0, 0.5])
+        torch.manual_seed(rng.randrange(10**6))
+        m = TwoHead().double()
+        twin = copy.deepcopy(m)
+        case = {'method': method, 'kl_clip': kl, 'aux_loss_weight': auxw}
+        try:
+            p1 = KFACPreconditioner(m, kl_clip=kl, lr=lr, compute_method=method, damping=0.01)
+            p2 = KFACPreconditioner(twin, kl_clip=None, lr=lr, compute_method=method, damping=0.01)
+            for step in range(2):
+                x = torch.randn(8, 3, dtype=torch.float64)
+                for mm in (m, twin):
+                    mm.zero_grad()
+                    a, b = mm(x)
+                    (a.pow(2).mean() + auxw * b.pow(2).mean()).backward()
+                D = [q.grad.clone() for q in m.parameters()]
+                p1.step()
+                p2.step()
+                V = [q.grad for q in twin.parameters()]
+                s_ = sum(float((v * d).sum()) for v, d in zip(V, D)) * lr ** 2
+                nu = 1.0 if s_ == 0 else min(1.0, (kl / abs(s_)) ** 0.5)
+                for (n_, q), v in zip(m.named_parameters(), V):
+                    if (q.grad - nu * v).abs().max().item() > 1e-6 * max(1e-30, (nu * v).abs().max().item(), 1e-12):
+                        ctx.fail(f'step {step}: gradient of {n_} is not nu*V with the global nu = {nu:.6g} '
+                                 f'(aux head gradient exactly zero: {auxw == 0.0})', case, 'zero-head')
+                        break
+        except Exception as e:  # noqa: BLE001
+            ctx.fail(f'zero-head run raised {type(e).__name__}: {e}', case, 'zero-head-raised')
+        ctx.evaluations += 1
+        ctx.count('zero-head')
+
+
 def run(ctx):
     exact_stream(ctx)
     residual_stream(ctx)
+    zero_head_stream(ctx)
     rng = ctx.rng
     cfgs = []
     for _ in range(ctx.budget(25, 250)):
